@@ -44,6 +44,7 @@ def strat_acq(tier):
         'acq_noise': st.sampled_from(['none', 'zero', 'scalar', 'big-scalar', 'dict-with-zero']),
         'n': st.integers(1, 8), 't': st.integers(0, 5), 'seed': st.integers(0, 2 ** 31 - 1),
         'rmv': st.tuples(st.sampled_from([10, 20, 50]), st.sampled_from([None, 2, 5])),
+        'bounds_keys_reversed': st.booleans(),
     }))
 
 
@@ -62,6 +63,8 @@ def _gp(case):
     lo = np.array([b[0] for b in case['bounds']])
     w = np.array([b[1] for b in case['bounds']])
     bounds = {n: (float(lo[i]), float(lo[i] + w[i])) for i, n in enumerate(names)}
+    if case.get('bounds_keys_reversed'):
+        bounds = dict(reversed(list(bounds.items())))      # the same bounds, written down in another key order
     rs = np.random.RandomState(case['data_seed'])
     gp = GPyRegression(names, bounds=bounds, max_opt_iters=case['max_opt_iters'])
     m = elfi.ElfiModel(name='c11model')
